@@ -7,11 +7,13 @@ export GOFLAGS=-mod=mod GOPROXY=off GOSUMDB=off GOTOOLCHAIN=local
 V=/verif
 P=$1; I=$2; shift 2
 CHECKS="${*:-$P}"
+ROUND="${ROUND:-}"          # ROUND=r2 reads /tmp/wt2out/<P>/MUTANT<i> and stores seeded/<P>-r2m<i>
 SRC=/tmp/wt/$P/MUTANT$I
-DST=$V/seeded/$P-m$I
+[ -n "$ROUND" ] && SRC=/tmp/wt2out/$P/MUTANT$I
+DST=$V/seeded/$P-${ROUND}m$I
 if [ -d "$SRC" ]; then mkdir -p $DST; cp $SRC/patch.diff $SRC/demo_test.go $SRC/meta.json $DST/ 2>/dev/null; fi
 [ -f $DST/patch.diff ] || { echo "no patch for $P m$I"; exit 2; }
-SC=/tmp/sc/$P-m$I; rm -rf $SC; mkdir -p $SC
+SC=/tmp/sc/$P-${ROUND}m$I; rm -rf $SC; mkdir -p $SC
 git -C /repo archive HEAD | tar -x -C $SC
 cd $SC
 res() { echo "$1" >> $DST/eval.txt; echo "  $1"; }
@@ -26,7 +28,8 @@ n=$(go test -count=1 -json ./... 2>/dev/null | grep -c '"Action":"pass","Package
 f=$(go test -count=1 -json ./... 2>/dev/null | grep -c '"Action":"fail"')
 res "patched: suite pass=$n fail=$f (want 499/0)"
 cp $DST/demo_test.go ./zz_demo_test.go
-if timeout 600 go test -count=1 -run 'TestMutantDemo' . > $SC.log 2>&1; then res "patched: demo PASSES (mutant does not manifest in demo)"; else res "patched: demo fails (as intended)"; fi
+RACEFLAG=""; grep -q -- "-race" $DST/meta.json 2>/dev/null && RACEFLAG="-race"
+if timeout 900 go test $RACEFLAG -count=1 -run 'TestMutantDemo' . > $SC.log 2>&1; then res "patched: demo PASSES (mutant does not manifest in demo)"; else res "patched: demo fails (as intended)"; fi
 rm -f zz_demo_test.go
 mkdir -p $V/.work/seeded-ev
 for c in $CHECKS; do
